@@ -21,7 +21,7 @@ class C03(Prop):
             "(stratified: handshake packets, packets inside spanning records, after key changes), thorough enumerates "
             "every packet/position/subset; non-trivial = the fault changed the capture or key log; distinct = (scenario, fault)")
     reach = ["victim_tls", "victim_quic", "bystander_quic", "fault_in_handshake", "fault_in_spanning_record",
-             "keydrop_subset", "late_start_mid_record", "flip_in_record_header", "flip_in_handshake_msg"]
+             "keydrop_subset", "late_start_mid_record", "flip_in_record_header", "flip_in_handshake_msg", "flip_aimed_at_hello_or_quic_header"]
 
     def plan(self, tier):
         p = super().plan(tier)
@@ -74,6 +74,34 @@ class C03(Prop):
             faults.append(("overwrite", {"k": "overwrite", "i": i, "off": R.below(max(1, ln)), "n": R.range(1, 64),
                                          "seed": R.bits(30)})) if (full or R.chance(40)) else None
             faults.append(("shorten", {"k": "shorten", "i": i, "n": R.range(1, 40)})) if (full or R.chance(25)) else None
+        # damage aimed at in-flight protocol state: the victim's ServerHello (version, session-id length, suite,
+        # extensions decide which keys are installed) and the first byte / version of every QUIC packet header
+        vt = [c for c in ex["truth"]["conns"] if c["id"] == vid][0]
+        aimed = []
+        if vconn["proto"] == "tls":
+            for r in vt["records"]:
+                if r["d"] == "s" and r["kind"] == "hs" and r["raw"][5:6] == b"\x02":
+                    shlen = 9 + int.from_bytes(r["raw"][6:9], "big")
+                    for f_ in vt["frames"]:
+                        if f_["d"] == "s" and f_["kept"] and not f_["dup"] and f_["lo"] < r["lo"] + shlen and f_["hi"] > r["lo"]:
+                            lo = max(f_["lo"], r["lo"]) - f_["lo"]
+                            hi = min(f_["hi"], r["lo"] + shlen) - f_["lo"]
+                            for o in range(lo, hi):
+                                for b in range(8):
+                                    aimed.append((f_["i"], o, b))
+                    break
+        elif vconn["proto"] == "quic":
+            for f_ in vt["frames"]:
+                if not f_["kept"] or f_["dup"]:
+                    continue
+                for pk in vt["dmeta"][f_["dg"]]["pk"]:
+                    if "off" in pk:
+                        for b in range(8):
+                            aimed.append((f_["i"], pk["off"], b))
+                        for o in (1, 2, 3, 4, 5):
+                            aimed.append((f_["i"], pk["off"] + o, R.below(8)))
+        for (i, o, b) in pick(aimed, 14):
+            faults.append(("flip", {"k": "flip", "i": i, "off": o, "bit": b, "fix": True, "aimed": True}))
         labels = sorted(set(l.split(" ")[0] for l in ex["keylines"] if vconn_has(l, ex, vid)))
         subsets = []
         for r in range(1, len(labels) + 1):
@@ -157,7 +185,10 @@ class C03(Prop):
             if changed:
                 out.nontrivial = True
                 out.add("faults", "%s:%s" % (spec.get("seed"), sorted(f.items())))
+                out.item("fault:%s" % sorted(f.items()))
             self.reach_probe(out, ex0, kind, f, vid)
+            if f.get("aimed"):
+                out.count("reach:flip_aimed_at_hello_or_quic_header")
             tag = "fault %s %s on victim conn %d (%s)" % (kind, f, vid, describe_conn(vconn))
             fc = failure_class(res)
             if fc:
